@@ -47,18 +47,22 @@ var probes = []probeCase{
 		`[{"op":"setup","kv":["never","never","never"],"nu":0},
 		  {"op":"preexec","amt":0,"prog":[{"op":"use","v":"x","a":5},{"op":"call","subp":[{"op":"use","v":"x","a":2}]}]},
 		  {"op":"submit","tk":"none"}]`},
-	{"own_change", "observation: a contract paying from the account named like itself: the change output counts as a transfer into the contract", true,
+	{"own_change", "observation: a contract paying from the account named like itself while 1 is sent to it: the change output counts as a transfer into the contract", true,
 		`[{"op":"setup","kv":["never","never","never"],"nu":2},
-		  {"op":"preexec","amt":0,"prog":[{"op":"xfer","a":1}]},
+		  {"op":"preexec","amt":1,"prog":[{"op":"xfer","a":1}]},
 		  {"op":"submit","tk":"none"}]`},
 	{"own_nochange", "control for own_change: amount 2 leaves no change", true,
 		`[{"op":"setup","kv":["never","never","never"],"nu":2},
-		  {"op":"preexec","amt":0,"prog":[{"op":"xfer","a":2}]},
+		  {"op":"preexec","amt":1,"prog":[{"op":"xfer","a":2}]},
 		  {"op":"submit","tk":"none"}]`},
 	{"event", "control: an altered event is refused (events travel in the transient bucket of the write set)", false,
 		`[{"op":"setup","kv":["live","never","never"],"nu":0},
 		  {"op":"preexec","amt":0,"prog":[{"op":"get","n":1},{"op":"emit","v":"e"}]},
 		  {"op":"submit","tk":"ev_alter","j":1}]`},
+	{"cin_extra", "control: one more utxo of the vault declared as contract input and spent", false,
+		`[{"op":"setup","kv":["never","never","never"],"nu":2},
+		  {"op":"preexec","amt":0,"prog":[{"op":"xfer","a":1}]},
+		  {"op":"submit","tk":"cin_extra"}]`},
 	{"phantom", "observation: a key inserted into a scanned range after pre-execution is not a declared read", false,
 		`[{"op":"setup","kv":["live","never","never"],"nu":0},
 		  {"op":"preexec","amt":0,"prog":[{"op":"scan","a":1,"b":4},{"op":"put","n":3,"v":"p"}]},
